@@ -227,6 +227,8 @@ def explore_config(ex, files, faults, T, style, bound, update_all=False, idx=0, 
             if len({p["who"] for p in sends}) >= 2:
                 ex.schedules_with_overtake += 1
         kids = []
+        if bound < 0:
+            return kids    # burst configurations: the default schedule only (a run takes many seconds)
         for i in range(len(prefix), len(pts)):
             p = pts[i]
             for alt in range(1, len(p["enabled"])):
@@ -320,9 +322,12 @@ def main(argv):
     fault_files = ["e.js", "f.js", "g.js"]
     if not thorough:
         # F=3 colliding files, T in {1,2,3}, bound 2 (T=3: bound 1), all three JSON styles for T=2
-        for T, bound, styles in [(1, 0, ["stream"]), (2, 2, ["stream"]), (2, 1, ["pretty", "compact"]), (3, 1, ["stream"])]:
+        # (the deeper bounds run on two colliding files: with the error-total update as a schedule point,
+        # bound 2 on three files alone was 2 300 schedules)
+        for files_, T, bound, styles in [(base_files, 1, 0, ["stream"]), (["a.js", "b.js"], 2, 2, ["stream"]), (base_files, 2, 1, ["stream", "pretty", "compact"]),
+                                         (["a.js", "b.js", "d.js"], 3, 1, ["stream"])]:
             for style in styles:
-                configs.append((base_files, [], T, style, bound, False))
+                configs.append((files_, [], T, style, bound, False))
         # every subset of the skipped/faulted files added to two colliding files, T=2, bound 1
         for k in range(1, len(fault_files) + 1):
             for sub in itertools.combinations(fault_files, k):
@@ -351,7 +356,7 @@ def main(argv):
     configs.append((["a.js", "d.js", "b.js", "g.js"], [], 2, "pretty", 1, "scan-json-U"))
     # a file above 3 MB with few lines is eligible like any other
     configs.append((["a.js", "big.js", "b.js"], [], 1, "stream", 0, False))
-    configs.append((["a.js", "big.js", "b.js"], [], 2, "stream", 1, False))
+    configs.append((["a.js", "big.js", "b.js"], [], 2, "stream", 1 if thorough else 0, False))
     configs.append((["a.js", "big.js"], [], 1, "stream", 0, "run-infer"))
     # `run -p` (no rule file): language inferred per file (html hosts js) and given with -l
     for mode in ("run-infer", "run-lang"):
@@ -361,23 +366,32 @@ def main(argv):
     # burst configurations: many one-match files, so that in the schedules where the producers run
     # ahead of the printer (the default schedule keeps the running participant running) thousands of
     # items are in flight before the first recv — queue-capacity / back-pressure bugs need that
-    n_burst = 2000 if thorough else 1500
+    n_burst = 2000 if thorough else 1200
     burst_names = []
     for i in range(n_burst):
         nm = f"m{i:04d}.js"
         FILES[nm] = f"foo({i})\n".encode()
         burst_names.append(nm)
     for T in ([1, 2, 3] if thorough else [1, 2]):
-        configs.append((burst_names, [], T, "stream", 0, False))
+        configs.append((burst_names, [], T, "stream", 0 if thorough else -1, False))
     import concurrent.futures
     results = []
-    with concurrent.futures.ThreadPoolExecutor(max_workers=16) as pool:
-        for idx, cfg in enumerate(configs):
-            names, faults, T, style, bound, upd = cfg
-            files = {k: FILES[k] for k in names}
-            sub = Explorer(rep, binary, root, args["tier"])
-            n, outcomes = explore_config(sub, files, faults, T, style, bound, upd, idx, pool)
-            results.append((cfg, n, outcomes, sub))
+    # the executions of one configuration form a tree (a schedule's children are known only after
+    # it ran), so one configuration alone cannot keep 16 cores busy: several configurations are
+    # explored at the same time, all feeding the same pool of executions
+    def run_cfg(item):
+        idx, cfg = item
+        names, faults, T, style, bound, upd = cfg
+        files = {k: FILES[k] for k in names}
+        sub = Explorer(rep, binary, root, args["tier"])
+        import time as _t; _s=_t.time()
+        n, outcomes = explore_config(sub, files, faults, T, style, bound, upd, idx, pool)
+        if os.environ.get("VERIF_DEBUG"): sys.stderr.write("cfg %d %s T=%d b=%d %s: %d schedules %.1fs\n" % (idx, str(names)[:40], T, bound, upd, n, _t.time()-_s))
+        return (cfg, n, outcomes, sub)
+    with concurrent.futures.ThreadPoolExecutor(max_workers=16) as pool, concurrent.futures.ThreadPoolExecutor(max_workers=6) as outer:
+        order = sorted(enumerate(configs), key=lambda ic: -len(ic[1][0]))   # the long burst runs start first
+        done = dict(outer.map(lambda ic: (ic[0], run_cfg(ic)), order))
+        results = [done[i] for i in range(len(configs))]
     total = sum(r[1] for r in results)
     per_cfg = []
     overtakes = 0
